@@ -717,6 +717,61 @@ def rule_r10(ctx) -> List[R.Inst]:
     return insts
 
 
+UNIVERSAL_CODECS = {"utf-8", "utf8", "utf_8", "utf-16", "utf16", "utf-32", "utf32", "utf_8_sig", "utf-8-sig"}
+
+
+def rule_r11(ctx) -> List[R.Inst]:
+    """a converter is total on its domain: the source's title / artist / difficulty name are arbitrary text (osu!, Quaver, StepMania
+    and O2Jam store Unicode), so an ENCODING into a legacy code page (`codecs.encode(s, "shift_jis")`, `s.encode("sjis")`) must say
+    what happens to a character the code page lacks (errors=…), or the conversion of a chart called "Café" raises instead of
+    returning a chart.  Decoding the bytes of a BMS chart is reported as an advisory only: the format defines them as Shift-JIS."""
+    M = ctx.M
+    rid = "C08.R11"
+    insts = []
+    for cv in convs(ctx):
+        n_enc = 0
+        for n in walk_no_nested(cv.fn.node):
+            if not isinstance(n, ast.Call):
+                continue
+            f = n.func
+            which = None
+            codec = errs = None
+            kw = {k.arg: k.value for k in n.keywords}
+            if isinstance(f, ast.Attribute) and f.attr in ("encode", "decode") and isinstance(f.value, ast.Name) and f.value.id == "codecs":
+                which = f.attr
+                codec = kw.get("encoding", n.args[1] if len(n.args) > 1 else None)
+                errs = kw.get("errors", n.args[2] if len(n.args) > 2 else None)
+            elif isinstance(f, ast.Name) and f.id in ("encode", "decode") and M.resolve(cv.fn.mod, f.id) and M.resolve(cv.fn.mod, f.id)[0] in ("import", "external"):
+                which = f.id
+                codec = kw.get("encoding", n.args[1] if len(n.args) > 1 else None)
+                errs = kw.get("errors", n.args[2] if len(n.args) > 2 else None)
+            elif isinstance(f, ast.Attribute) and f.attr in ("encode", "decode") and not (isinstance(f.value, ast.Name) and f.value.id == "codecs"):
+                which = f.attr
+                codec = kw.get("encoding", n.args[0] if n.args else None)
+                errs = kw.get("errors", n.args[1] if len(n.args) > 1 else None)
+            if which is None:
+                continue
+            cname = codec.value.lower() if isinstance(codec, ast.Constant) and isinstance(codec.value, str) else None
+            if codec is None or (cname is not None and cname in UNIVERSAL_CODECS):
+                continue          # (the default and the UTF family encode every character)
+            n_enc += 1
+            key = f"{cv.name}:{which}@{n_enc}"
+            strict = errs is None or (isinstance(errs, ast.Constant) and errs.value == "strict")
+            if not strict:
+                insts.append(R.ok(rid, key, cv.file, n.lineno, idiom=f"{which} to {cname or unparse(codec)} with errors={unparse(errs)}"))
+            elif which == "encode":
+                insts.append(R.viol(rid, key, cv.file, n.lineno,
+                                    f"'{unparse(n)[:70]}' raises UnicodeEncodeError for every character {cname or 'the code page'} lacks (é, 한, …): "
+                                    f"a source chart with such a title / artist / difficulty name is not converted at all",
+                                    construct=f"{cv.name}: strict encode of {unparse(n.args[0])[:40] if n.args else '?'} to {cname}"))
+            else:
+                insts.append(R.adv(rid, key, cv.file, n.lineno,
+                                   f"'{unparse(n)[:70]}' is strict: bytes that are not {cname} (a BMS file saved as UTF-8) make the conversion raise"))
+        if n_enc == 0:
+            insts.append(R.ok(rid, f"{cv.name}:codecs", cv.file, cv.fn.node.lineno, idiom="no conversion into or out of a legacy code page"))
+    return insts
+
+
 def rule_dep(ctx):
     """obligations inherited from shared code reached through the call graph (sa/props/deps.py)"""
     from .deps import dep_insts
@@ -734,6 +789,7 @@ SPECS = [
     RuleSpec("C08.R8", rule_r8, 1, "A4", "label-agnostic copy in cast()"),
     RuleSpec("C08.R9", rule_r9, 3, "A1", "paired lookup tables (keys <-> chart type / mode, sample set code <-> name) are mutually consistent"),
     RuleSpec("C08.R10", rule_r10, 17, "A3", "container-valued metadata is copied into the result, not shared with the source"),
+    RuleSpec("C08.R11", rule_r11, 17, "A7", "conversions into a legacy code page say what happens to characters it lacks (total on Unicode metadata)"),
     RuleSpec("C08.D", rule_dep, 1, "M0", "rules of the shared code (timing engine, list classes, stacker) that the operations of this property reach"),
 ]
 
